@@ -1,6 +1,210 @@
-(** UnitsProofs.v — lemmas for C08 (work in progress). *)
-From Coq Require Import String Ascii List ZArith QArith Bool Lia.
-From LC Require Import Common NumDefs UnitsDefs.
+(** UnitsProofs.v — lemmas for C08 over UnitsDefs.v / UnitsSpec.v. *)
+From Coq Require Import String Ascii List ZArith QArith Bool Lia Permutation Setoid Morphisms Relations.
+From LC Require Import Common NumDefs UnitsDefs UnitsSpec.
 From LCGen Require Import UnitTables PrefixTable.
 Import ListNotations.
 Local Open Scope string_scope.
+Local Open Scope Q_scope.
+
+(* ------------------------------------------------------------------ tables *)
+
+Lemma tables_ok : tables_check = true.
+Proof. vm_compute. reflexivity. Qed.
+
+Lemma mem_str_In : forall s l, mem_str s l = true <-> In s l.
+Proof.
+  intros s l. unfold mem_str. rewrite existsb_exists. split.
+  - intros [x [Hin Heq]]. apply String.eqb_eq in Heq. subst. exact Hin.
+  - intros Hin. exists s. split; [exact Hin | apply String.eqb_refl].
+Qed.
+
+Lemma assoc_In : forall {A} k (l : list (string * A)) v, assoc k l = Some v -> In (k, v) l.
+Proof.
+  intros A k l. induction l as [|[k' v'] r IH]; intros v H; cbn in H; [discriminate|].
+  destruct (String.eqb_spec k k') as [->|Hne].
+  - injection H as ->. left. reflexivity.
+  - right. apply IH. exact H.
+Qed.
+
+Lemma std_components_over_base : forall n k e, In (k, e) (std_components n) -> In k base_units_list.
+Proof.
+  intros n k e Hin. unfold std_components in Hin.
+  destruct (assoc n standard_units_list) as [comps|] eqn:Ha; [|destruct Hin].
+  assert (T : forallb (fun e : string * list (string * Q) => forallb (fun c => mem_str (fst c) base_units_list) (snd e))
+                standard_units_list = true) by (vm_compute; reflexivity).
+  rewrite forallb_forall in T.
+  specialize (T (n, comps) (assoc_In _ _ _ Ha)). cbn in T.
+  rewrite forallb_forall in T. specialize (T (k, e) Hin). cbn in T.
+  apply mem_str_In. exact T.
+Qed.
+
+(* ------------------------------------------------------------------ association-list maps *)
+
+Definition keys (m : umap) : list string := map fst m.
+Definition wfmap (m : umap) : Prop := NoDup (keys m).
+
+Lemma assoc_none_keys : forall {A} k (m : list (string * A)), assoc k m = None <-> ~ In k (map fst m).
+Proof.
+  intros A k m. induction m as [|[k' v] r IH]; cbn.
+  - split; [intros _ []|reflexivity].
+  - destruct (String.eqb_spec k k') as [->|Hne].
+    + split; [discriminate|]. intros H. exfalso. apply H. left. reflexivity.
+    + rewrite IH. split.
+      * intros H [Heq|Hin]; [apply Hne; symmetry; exact Heq|apply H; exact Hin].
+      * intros H Hin. apply H. right. exact Hin.
+Qed.
+
+Lemma assoc_some_keys : forall {A} k (m : list (string * A)) v, assoc k m = Some v -> In k (map fst m).
+Proof.
+  intros A k m v H. apply assoc_In in H. apply (in_map fst) in H. exact H.
+Qed.
+
+Lemma In_assoc_nodup : forall {A} k (v : A) m, NoDup (map fst m) -> In (k, v) m -> assoc k m = Some v.
+Proof.
+  intros A k v m. induction m as [|[k' v'] r IH]; intros Hnd Hin; [destruct Hin|].
+  cbn in *. inversion Hnd as [|? ? Hnotin Hnd']; subst.
+  destruct Hin as [Heq|Hin].
+  - injection Heq as -> ->. rewrite String.eqb_refl. reflexivity.
+  - destruct (String.eqb_spec k k') as [->|Hne].
+    + exfalso. apply Hnotin. apply (in_map fst) in Hin. exact Hin.
+    + apply IH; assumption.
+Qed.
+
+Lemma get_madd : forall k d m k',
+  get (madd k d m) k' == (if String.eqb k k' then get m k' + d else get m k').
+Proof.
+  intros k d m k'. unfold get. induction m as [|[key v] r IH]; cbn.
+  - rewrite (String.eqb_sym k' k). destruct (String.eqb k k'); ring.
+  - destruct (String.eqb_spec k key) as [->|Hne]; cbn.
+    + destruct (String.eqb_spec k' key) as [->|Hne'].
+      * rewrite String.eqb_refl. reflexivity.
+      * destruct (String.eqb_spec key k') as [->|_]; [contradiction Hne'; reflexivity|reflexivity].
+    + destruct (String.eqb_spec k' key) as [->|Hne'].
+      * destruct (String.eqb_spec k key) as [->|_]; [contradiction Hne; reflexivity|reflexivity].
+      * exact IH.
+Qed.
+
+Lemma keys_madd_in : forall k d m x, In x (keys (madd k d m)) <-> x = k \/ In x (keys m).
+Proof.
+  intros k d m x. unfold keys. induction m as [|[key v] r IH]; cbn.
+  - split; [intros [H|[]]; left; symmetry; exact H | intros [H|[]]; left; symmetry; exact H].
+  - destruct (String.eqb_spec k key) as [->|Hne]; cbn.
+    + split; [intros H; right; exact H|]. intros [->|H]; [left; reflexivity|exact H].
+    + rewrite IH. tauto.
+Qed.
+
+Lemma wfmap_madd : forall k d m, wfmap m -> wfmap (madd k d m).
+Proof.
+  intros k d m. unfold wfmap, keys. induction m as [|[key v] r IH]; intros H; cbn.
+  - constructor; [intros []|constructor].
+  - inversion H as [|? ? Hnotin Hnd]; subst.
+    destruct (String.eqb_spec k key) as [->|Hne]; cbn.
+    + constructor; assumption.
+    + constructor; [|apply IH; exact Hnd].
+      intros Hin. apply (keys_madd_in k d r key) in Hin. destruct Hin as [Heq|Hin].
+      * apply Hne. symmetry. exact Heq.
+      * apply Hnotin. exact Hin.
+Qed.
+
+Lemma wfmap_nil : wfmap [].
+Proof. constructor. Qed.
+
+Lemma assoc_filter : forall (P : string * Q -> bool) (m : umap) k, wfmap m ->
+  assoc k (filter P m) = match assoc k m with
+                         | Some v => if P (k, v) then Some v else None
+                         | None => None
+                         end.
+Proof.
+  intros P m k. unfold wfmap, keys. induction m as [|[key v] r IH]; intros Hnd; cbn; [reflexivity|].
+  inversion Hnd as [|? ? Hnotin Hnd']; subst.
+  destruct (String.eqb_spec k key) as [->|Hne].
+  - destruct (P (key, v)) eqn:HP; cbn.
+    + rewrite String.eqb_refl. reflexivity.
+    + apply assoc_none_keys. intros Hin. apply Hnotin.
+      unfold keys in *. apply in_map_iff in Hin. destruct Hin as [[a b] [Hf Hin]]. cbn in Hf. subst a.
+      apply filter_In in Hin. destruct Hin as [Hin _]. apply (in_map fst) in Hin. exact Hin.
+  - destruct (P (key, v)); cbn.
+    + destruct (String.eqb_spec k key) as [->|_]; [contradiction Hne; reflexivity|]. apply IH. exact Hnd'.
+    + apply IH. exact Hnd'.
+Qed.
+
+Lemma wfmap_filter : forall (P : string * Q -> bool) m, wfmap m -> wfmap (filter P m).
+Proof.
+  intros P m. unfold wfmap, keys. induction m as [|[key v] r IH]; intros Hnd; cbn; [constructor|].
+  inversion Hnd as [|? ? Hnotin Hnd']; subst.
+  destruct (P (key, v)); cbn; [|apply IH; exact Hnd'].
+  constructor; [|apply IH; exact Hnd'].
+  intros Hin. apply Hnotin. apply in_map_iff in Hin. destruct Hin as [[a b] [Hf Hin]]. cbn in Hf. subst a.
+  apply filter_In in Hin. destruct Hin as [Hin _]. apply (in_map fst) in Hin. exact Hin.
+Qed.
+
+(* cleaned maps: no zero entry, no "dimensionless" *)
+Definition clean (m : umap) : Prop := forall k v, In (k, v) m -> ~ v == 0.
+
+Lemma qzero_iff : forall q, qzero q = true <-> q == 0.
+Proof. intros q. unfold qzero. apply Qeq_bool_iff. Qed.
+
+Lemma clean_clean_map : forall m, clean (clean_map m).
+Proof.
+  intros m k v Hin. unfold clean_map in Hin. apply filter_In in Hin. destruct Hin as [_ HP]. cbn in HP.
+  apply andb_prop in HP. destruct HP as [HP _]. apply negb_true_iff in HP.
+  intros Hz. apply qzero_iff in Hz. rewrite Hz in HP. discriminate.
+Qed.
+
+Lemma get_clean_map : forall m k, wfmap m ->
+  get (clean_map m) k == (if String.eqb k "dimensionless" then 0 else get m k).
+Proof.
+  intros m k Hwf. unfold get, clean_map. rewrite assoc_filter by exact Hwf.
+  destruct (assoc k m) as [v|]; cbn.
+  - destruct (qzero v) eqn:Hz; cbn.
+    + apply qzero_iff in Hz. destruct (String.eqb k "dimensionless"); [reflexivity|symmetry; exact Hz].
+    + destruct (String.eqb k "dimensionless"); cbn; reflexivity.
+  - destruct (String.eqb k "dimensionless"); reflexivity.
+Qed.
+
+Lemma get_notin : forall m k, ~ In k (keys m) -> get m k = 0.
+Proof. intros m k H. unfold get. apply assoc_none_keys in H. rewrite H. reflexivity. Qed.
+
+Lemma clean_in_keys : forall m k, wfmap m -> clean m -> (In k (keys m) <-> ~ get m k == 0).
+Proof.
+  intros m k Hwf Hcl. split.
+  - intros Hin. unfold keys in Hin. apply in_map_iff in Hin. destruct Hin as [[a v] [Hf Hin]]. cbn in Hf. subst a.
+    unfold get. rewrite (In_assoc_nodup k v m Hwf Hin). apply (Hcl k v Hin).
+  - intros Hnz. destruct (in_dec string_dec k (keys m)) as [Hin|Hnin]; [exact Hin|].
+    exfalso. apply Hnz. rewrite (get_notin m k Hnin). reflexivity.
+Qed.
+
+(** The comparison loop of Units::compatible decides extensional equality of cleaned maps. *)
+Lemma maps_equal_iff : forall m1 m2, wfmap m1 -> wfmap m2 -> clean m1 -> clean m2 ->
+  (maps_equal m1 m2 = true <-> forall k, get m1 k == get m2 k).
+Proof.
+  intros m1 m2 W1 W2 C1 C2. unfold maps_equal. rewrite andb_true_iff, Nat.eqb_eq, forallb_forall. split.
+  - intros [Hlen Hall] k.
+    assert (Hincl : incl (keys m1) (keys m2)).
+    { intros x Hx. unfold keys in Hx. apply in_map_iff in Hx. destruct Hx as [[a v] [Hf Hin]]. cbn in Hf. subst a.
+      specialize (Hall (x, v) Hin). cbn in Hall. destruct (assoc x m2) as [v2|] eqn:Ha; [|discriminate].
+      apply assoc_some_keys in Ha. exact Ha. }
+    assert (Hincl2 : incl (keys m2) (keys m1)).
+    { apply NoDup_length_incl; [exact W1| |exact Hincl]. unfold keys. rewrite !map_length. lia. }
+    destruct (in_dec string_dec k (keys m1)) as [Hin|Hnin].
+    + unfold keys in Hin. apply in_map_iff in Hin. destruct Hin as [[a v] [Hf Hin]]. cbn in Hf. subst a.
+      specialize (Hall (k, v) Hin). cbn in Hall. unfold get. rewrite (In_assoc_nodup k v m1 W1 Hin).
+      destruct (assoc k m2) as [v2|]; [|discriminate]. apply Qeq_bool_iff in Hall. symmetry. exact Hall.
+    + rewrite (get_notin m1 k Hnin). rewrite (get_notin m2 k); [reflexivity|].
+      intros Hin2. apply Hnin. apply Hincl2. exact Hin2.
+  - intros Hext.
+    assert (Hincl : forall ma mb, wfmap ma -> clean ma -> wfmap mb -> clean mb -> (forall k, get ma k == get mb k) -> incl (keys ma) (keys mb)).
+    { intros ma mb Wa Ca Wb Cb He x Hx. apply (clean_in_keys mb x Wb Cb). rewrite <- He. apply (clean_in_keys ma x Wa Ca). exact Hx. }
+    split.
+    + pose proof (NoDup_incl_length W1 (Hincl m1 m2 W1 C1 W2 C2 Hext)) as L1.
+      assert (Hext' : forall k, get m2 k == get m1 k) by (intros k; symmetry; apply Hext).
+      pose proof (NoDup_incl_length W2 (Hincl m2 m1 W2 C2 W1 C1 Hext')) as L2.
+      unfold keys in L1, L2. rewrite !map_length in L1, L2. lia.
+    + intros [k v] Hin. cbn.
+      assert (Hk : In k (keys m2)).
+      { apply (Hincl m1 m2 W1 C1 W2 C2 Hext). unfold keys. apply in_map_iff. exists (k, v). split; [reflexivity|exact Hin]. }
+      destruct (assoc k m2) as [v2|] eqn:Ha.
+      * apply Qeq_bool_iff. specialize (Hext k). unfold get in Hext. rewrite (In_assoc_nodup k v m1 W1 Hin), Ha in Hext.
+        symmetry. exact Hext.
+      * apply assoc_none_keys in Ha. contradiction.
+Qed.
